@@ -170,6 +170,24 @@ def run(pid, spec, tier, seed):
                 if xseeds:
                     notes.append("generated cases were run under seeds %s" % ", ".join([str(seed)] + xseeds))
 
+        # cases in which a transaction ran out of the system fee the HARNESS put on it (listed by hx) are not judged: neither
+        # their observations nor monitor records say anything about the contract
+        for r in runs:
+            lp = os.path.join(r["outdir"], "resource_limited.txt")
+            if os.path.exists(lp):
+                lim = set(open(lp).read().split())
+                ncases = (r["stats"].get("stats") or {}).get("cases", 0)
+                if len(lim) > max(3, ncases // 50):
+                    # many cases run out of GAS: that is behaviour of the code under test (a loop that no longer ends, work that
+                    # blew up), not a rare artefact of the fee: judge everything as usual
+                    notes.append("%d of %d cases ran out of GAS: judged as observed" % (len(lim), ncases))
+                    continue
+                nd, nm = len(r["diffs"]), len(r["monitor"])
+                r["diffs"] = [d for d in r["diffs"] if d.get("case") not in lim]
+                r["monitor"] = [v for v in r["monitor"] if v.get("case") not in lim]
+                notes.append("%d case(s) hit the harness's own system-fee limit (out of GAS) and were not judged (%d difference(s), %d monitor "
+                             "record(s) dropped): %s" % (len(lim), nd - len(r["diffs"]), nm - len(r["monitor"]), " ".join(sorted(lim))[:200]))
+
         # 3. verdict
         known = C.known_findings()
         mon_hits = []
